@@ -318,7 +318,7 @@ func instrumentTree(root, dst string, points bool) (*instrResult, error) {
 		ast.Inspect(f, func(n ast.Node) bool {
 			switch x := n.(type) {
 			case *ast.FuncDecl:
-				x.Doc = nil
+				x.Doc = directivesOnly(x.Doc) // //go:nocheckptr, //go:noinline ... stay in force
 			case *ast.GenDecl:
 				x.Doc = nil
 			case *ast.Field:
@@ -466,4 +466,21 @@ func withLineDirectives(src []byte, sites []string, origPath string) []byte {
 		}
 	}
 	return out.Bytes()
+}
+
+// directivesOnly keeps the compiler directives of a doc comment.
+func directivesOnly(cg *ast.CommentGroup) *ast.CommentGroup {
+	if cg == nil {
+		return nil
+	}
+	var keep []*ast.Comment
+	for _, c := range cg.List {
+		if strings.HasPrefix(c.Text, "//go:") && !strings.HasPrefix(c.Text, "//go:embed") && !strings.HasPrefix(c.Text, "//go:linkname") && !strings.HasPrefix(c.Text, "//go:build") && !strings.HasPrefix(c.Text, "//go:generate") {
+			keep = append(keep, c)
+		}
+	}
+	if len(keep) == 0 {
+		return nil
+	}
+	return &ast.CommentGroup{List: keep}
 }
